@@ -269,3 +269,19 @@ def run_creation(item):
     if fn not in ("empty", "empty_like") and not np.array_equal(got.data, ref.astype(want_dt)):
         return ("values", ref.astype(want_dt).tolist(), got.data.tolist())
     return None
+
+
+def rerun(table, item):
+    """Re-executes one cell of the named table (used by ./check <ID> --replay)."""
+    import shutil
+    import tempfile
+
+    if table in ("construct", "convert"):
+        return run_construct(item)
+    if table == "saveload":
+        d = tempfile.mkdtemp(prefix="verif-sl-")
+        try:
+            return run_saveload(item, d, 0)
+        finally:
+            shutil.rmtree(d, ignore_errors=True)
+    return run_creation(item)
